@@ -56,3 +56,9 @@ PENDING.pop("C01", None)
 _p("C02", "other",
    "Static clauses of 'the parser accepts exactly the Jaqal grammar, layout-insensitively'. C02.1: the productions are extracted from the sly @_() decorators (always-raising actions and the experimental branch tokens removed) and the token-level language is compared with a reference Jaqal grammar for ALL token strings up to length 8 (quick) / 10 (thorough) by exhaustive bounded enumeration; the shortest string in the symmetric difference is reported. C02.2: header/body typestate decided on the CFGs of the top_statement actions. C02.3: every value-bearing RHS symbol of every production flows into the action's result (no statement dropped). C02.4: exact regular-language conditions on the comment/whitespace tokens (line comment has no newline, block comment ends at the first `*/`, only blanks are ignored). C02.5: the error handler is total for token=None. Does not decide that the S-expression equals the grammar's tree for every text, nor the column arithmetic.")
 PENDING.pop("C02", None)
+
+_p("C11", "proof",
+   "Ownership/effect analysis (sound over-approximation of writes within the stated model): every syntactic mutation site (mutating container methods, attribute/item stores and deletes, augmented assignments, setattr) in every function reachable from the nine pass/analysis entry points is an obligation; the abstract value of its receiver (fresh allocation / visitor-owned state / input / global / unknown, with constructor and field summaries, symbolic return summaries and parameter grounding over all call sites) must exclude INPUT. If all obligations discharge, no call history of these entry points can modify an input circuit, under the listed assumptions. A receiver that stays UNKNOWN is reported as undecided and downgrades the level for that run. A positive control (an embedded violating pass) must be flagged on every run.",
+   )
+PROPS["C11"]["technique"] = "static analysis: ownership/effect abstract interpretation over the call graph"
+PENDING.pop("C11", None)
